@@ -550,6 +550,7 @@ EXPECTED_TAGS = {
     'attachment-dates': ['from-clock', 'reproducible', 'file', 'url'],
     'svg-draw': ['cycle', 'acyclic', 'fails', 'no-failure'],
     'image-docs': ['shared-url', 'disjoint', 'mixed-options', 'same-options'],
+    'counter-dict': ['persisting', 'fresh'],
     'render-state': ['renders1', 'renders2', 'renders3', 'renders4', 'font-faces', 'caller-cache', 'folder-cache',
                      'raw-sheet'],
     'history (validation)': ['process-vs-process', 'same-html-object', 'write-twice', 'snapshot', 'cache-dict',
@@ -1014,6 +1015,73 @@ def section_attachment_dates(run):
             os.environ.pop('SOURCE_DATE_EPOCH', None)
         else:
             os.environ['SOURCE_DATE_EPOCH'] = saved_epoch
+
+
+# ---------------------------------------------------------------------------------------------- counter dictionary
+
+COUNTER_NAMES = ['lower-alpha', 'decimal', 'disc', 'stars', 'own', 'm-dash']     # three UA styles, three author names
+
+
+def run_counter_dict(documents, probes):
+    """Real HTML.render(counter_style=cs) over a sequence of documents sharing ONE CounterStyle -> after every render,
+    what the real dictionary binds each probe name to: `ua` (the UA definition), the marker of the rule that defined
+    it, `-` (absent)."""
+    from weasyprint.css.counters import CounterStyle
+    from weasyprint.html import HTML5_UA_COUNTER_STYLE
+    ua = HTML5_UA_COUNTER_STYLE
+    shared = CounterStyle()
+    out = []
+    for rules in documents:
+        css = ''.join(f'@counter-style {name}{{system:cyclic;symbols:"{tag}"}}' for name, tag in rules)
+        source = (f'<style>@page{{size:100px}}{css}</style><ol style="list-style-type:lower-latin"><li>a</li></ol>')
+        docs.html(source).render(None, shared)
+        shown = []
+        for name in probes:
+            if name not in shared:
+                shown.append(f'{name}=-')
+            elif name in ua and shared[name] == ua[name]:
+                shown.append(f'{name}=ua')
+            else:
+                text = repr(shared[name])
+                tags = [tag for _, tag in sum(documents, []) if f"'{tag}'" in text]
+                shown.append(f'{name}=' + (tags[0] if len(set(tags)) == 1 else f'?{sorted(set(tags))}'))
+        out.append(';'.join(shown))
+    return ' | '.join(out)
+
+
+def section_counter_dict(run):
+    from weasyprint.html import HTML5_UA_COUNTER_STYLE
+    ua_names = [name for name in HTML5_UA_COUNTER_STYLE if sx_atom_ok(name)]
+    sec = run.section(
+        'counter-dict',
+        'real HTML.render(counter_style=cs) over sequences of 1..4 documents sharing one CounterStyle, each defining 0..3 '
+        '@counter-style rules (UA names redefined, author names, the same name twice); compared: what the real '
+        'dictionary binds every probe name to after every render; non-trivial = a later document leaves a name '
+        'alone that an earlier one defined')
+    marker = [0]
+    for _ in range(run.n(30, 300)):
+        documents = []
+        for _ in range(run.rng.randrange(1, 5)):
+            rules = []
+            for _ in range(run.rng.randrange(0, 4)):
+                marker[0] += 1
+                rules.append([run.rng.choice(COUNTER_NAMES), f'm{marker[0]}'])
+            documents.append(rules)
+        out = docs.outcome(lambda: run_counter_dict(documents, COUNTER_NAMES))
+        defined, later_alone = set(), False
+        for rules in documents:
+            names = {name for name, _ in rules}
+            later_alone = later_alone or bool(defined - names)
+            defined |= names
+        # the model's input is the rules whose name parse_counter_style_name accepts: `decimal` and `disc` only while
+        # the dictionary does not hold them (never, once the UA styles are in), never `none` (name validation: C15)
+        accepted = [[rule for rule in rules if rule[0] not in ('decimal', 'disc', 'none')] for rules in documents]
+        sec.add(sx.line('counterdict', ua_names, accepted, COUNTER_NAMES), out, meta={'documents': documents},
+                nontrivial=later_alone, tags=[f'documents{len(documents)}', 'persisting' if later_alone else 'fresh'])
+
+
+def sx_atom_ok(text):
+    return bool(text) and not any(c in text for c in ' ()\n\t\r')
 
 
 # ---------------------------------------------------------------------------------------------- SVG re-entrancy
@@ -2373,7 +2441,8 @@ class C19(PropCheck):
     modules = ('WpModel.Props.C19', 'WpModel.Props.C19Purity', 'WpModel.Props.C19State', 'WpModel.Witness.C19',
                'WpModel.Props.C19Pm2', 'WpModel.Props.C19Key', 'WpModel.Props.C19Names', 'WpModel.Props.C19Cascade',
                'WpModel.Props.C19Memo', 'WpModel.Props.C19Attach',
-               'WpModel.Props.C19Svg', 'WpModel.Props.C19Docs')
+               'WpModel.Props.C19Svg', 'WpModel.Props.C19Docs',
+               'WpModel.Props.C19Counter')
     trusted_base = (
         'modelled, not verified: generate_pdf / add_links / make_bookmark_tree coordinates, Document.copy, '
         'resolve_links, get_image_from_uri + RasterImage cache writes, write_pdf sinks, the allocation skeleton of '
@@ -2421,6 +2490,7 @@ class C19(PropCheck):
         timed('text-decoration', section_text_decoration, run)
         timed('attachment-dates', section_attachment_dates, run)
         timed('svg-draw', section_svg_draw, run)
+        timed('counter-dict', section_counter_dict, run)
         timed('functions', section_functions, run, factory)
         timed('module-state', section_module_state, run, module_before)
         run.extra['section_seconds'] = timings
@@ -2457,6 +2527,23 @@ class C19(PropCheck):
                     return (f'document {index} of the sequence gets the images {got} with the cache filled by the '
                             f'documents before it, and {alone.split(" => ")[-1]} alone on a cold cache '
                             f'(elements {document[1]}, options {document[0]})')
+            return None
+        if section == 'counter-dict':
+            # the clause: for the UA names and the names a document defines, the binding after its render is the one it
+            # gets alone with a new CounterStyle() (C19.Counter.history_as_alone)
+            documents = meta['documents']
+            together = run_counter_dict(documents, COUNTER_NAMES).split(' | ')
+            from weasyprint.html import HTML5_UA_COUNTER_STYLE
+            for index, rules in enumerate(documents):
+                alone = run_counter_dict([rules], COUNTER_NAMES)
+                relevant = {name for name, _ in rules} | {n for n in COUNTER_NAMES if n in HTML5_UA_COUNTER_STYLE}
+                got = dict(item.split('=', 1) for item in together[index].split(';'))
+                want = dict(item.split('=', 1) for item in alone.split(';'))
+                for name in sorted(relevant):
+                    if got.get(name) != want.get(name):
+                        return (f'document {index} of the sequence {documents} (one CounterStyle shared): the counter '
+                                f'style {name!r} is bound to {got.get(name)} after its render, to {want.get(name)} when '
+                                'the document is rendered alone with a new CounterStyle()')
             return None
         if section == 'svg-draw':
             depth = []
